@@ -13,8 +13,10 @@ import (
 
 func init() {
 	register(&Property{
-		ID:  "C07",
-		Gen: genC07,
+		ID:    "C07",
+		Files: []string{"queue.go"},
+		Funcs: []string{"BufferedChannelQueue", "ChannelQueue"},
+		Gen:   genC07,
 		Rule: "producers (Offer/Put, unique values) x consumers (Take/TakeWithTimeout/Poll/channel receive/Count) on a real BufferedChannelQueue (loader + free-node goroutines on the fake clock) " +
 			"or a bare ChannelQueue, configurations (capacity, buffer maximum, intervals) drawn per run, optional fill-only runs; then a fair settle phase in which the main thread repeatedly calls Poll/TakeWithTimeout; " +
 			"oracles over the stamped history: invented/duplicate/lost, real-time FIFO, bound, non-blocking, error necessity, timeout honesty, conservation, nothing stranded (capacity>=1); " +
@@ -172,8 +174,17 @@ func (sc *c07Scenario) Run(s *simrt.Sim) {
 	var bq *fpgo.BufferedChannelQueue[int]
 	var cq fpgo.ChannelQueue[int]
 	if sc.Kind == "buffered" {
-		bq = fpgo.NewBufferedChannelQueue[int](sc.Cap, sc.BufMax, sc.HookSize)
+		if sc.HookSize == 1 {
+			// configured through the setters instead of the constructor arguments
+			bq = fpgo.NewBufferedChannelQueue[int](sc.Cap, sc.BufMax+7, 9).SetBufferSizeMaximum(sc.BufMax).SetNodeHookPoolSize(sc.HookSize)
+		} else {
+			bq = fpgo.NewBufferedChannelQueue[int](sc.Cap, sc.BufMax, sc.HookSize)
+		}
 		bq.SetLoadFromPoolDuration(sc.LoadDur).SetFreeNodeHookPoolIntervalDuration(sc.FreeDur)
+		if bq.GetBufferSizeMaximum() != sc.BufMax || bq.GetNodeHookPoolSize() != sc.HookSize || bq.GetLoadFromPoolDuration() != sc.LoadDur ||
+			bq.GetFreeNodeHookPoolIntervalDuration() != sc.FreeDur || bq.IsClosed() {
+			sc.extra = append(sc.extra, Violation{Clause: "configuration", Fingerprint: "buffered:getters-disagree-with-setters", Detail: "a Get* accessor does not return what was configured"})
+		}
 		q = bq
 	} else {
 		cq = fpgo.NewChannelQueue[int](sc.Cap)
